@@ -134,6 +134,32 @@ impl Client {
             }
         }
     }
+    /// every complete frame that has already arrived (no waiting): (frames, end of stream seen, undecodable bytes)
+    pub fn poll(&mut self) -> (Vec<V>, bool, bool) {
+        let mut eof = false;
+        self.s.set_nonblocking(true).ok();
+        let mut tmp = [0u8; 65536];
+        loop {
+            match self.s.read(&mut tmp) {
+                Ok(0) => { eof = true; break; }
+                Ok(n) => self.buf.extend_from_slice(&tmp[..n]),
+                Err(e) if e.kind() == std::io::ErrorKind::Interrupted => continue,
+                Err(e) if e.kind() == std::io::ErrorKind::WouldBlock => break,
+                Err(_) => { eof = true; break; }
+            }
+        }
+        self.s.set_nonblocking(false).ok();
+        let mut frames = vec![]; let mut bad = false;
+        loop {
+            let mut pos = 0;
+            match Client::parse(&self.buf, &mut pos) {
+                Some(Ok(v)) => { self.buf.drain(..pos); frames.push(v); }
+                Some(Err(_)) => { bad = true; break; }
+                None => break,
+            }
+        }
+        (frames, eof, bad)
+    }
     /// raw bytes currently available within `ms` (for unsolicited-output checks)
     pub fn drain_raw(&mut self, ms: u64) -> Vec<u8> {
         self.s.set_read_timeout(Some(Duration::from_millis(ms.max(1)))).ok();
